@@ -52,7 +52,9 @@ func ForLookup(addr string) (string, error) {
 		}
 	}
 
-	mbox = strings.ToLower(norm.NFC.String(mbox))
+	// NFC is applied again since lower-casing can leave a sequence that has a
+	// precomposed form (J + U+030C => j + U+030C, NFC is U+01F0).
+	mbox = norm.NFC.String(strings.ToLower(norm.NFC.String(mbox)))
 
 	if domain == "" {
 		return mbox, nil
@@ -81,7 +83,7 @@ func CleanDomain(addr string) (string, error) {
 	if err != nil {
 		return addr, err
 	}
-	uDomain = strings.ToLower(norm.NFC.String(uDomain))
+	uDomain = norm.NFC.String(strings.ToLower(norm.NFC.String(uDomain)))
 
 	if domain == "" {
 		return mbox, nil
